@@ -48,6 +48,7 @@ class blockiterator(object):
         if padding:
             nPi = self.lastblock(Pi,**kargs)
             b,lastb= nPi[:self.blocklen],nPi[self.blocklen:]
+            if bitlen==bitcnt: self.bitcnt = 0 # block holds padding only
             yield b
             if len(lastb)>0:
                 self.bitcnt = 0
